@@ -128,7 +128,7 @@ def scen_for(calls_name, nw, wq, rq, judge):
     for c in CALLS[calls_name]:
         n, ordered = (c, True) if isinstance(c, int) else c
         calls.append(dict(n=n, chunk=1, ordered=ordered))
-    s = dict(pool="functor", nw=nw, calls=calls, judge=judge, name="conf_%s_%d_%s_%s" % (calls_name, nw, wq, rq))
+    s = dict(pool="functor", nw=nw, calls=calls, judge=judge, name="conf_%s_%d_%s_%s" % (calls_name, nw, wq, rq), pauses=False)
     s["wq"] = wq if wq else None
     if rq:
         s["rq"] = rq
